@@ -769,7 +769,7 @@ func concFamily(r *run.R, t *testing.T, u *universe, race bool) {
 	rounds := r.Pick(12, 60)
 	iters := r.Pick(40, 80)
 	if race {
-		rounds, iters = r.Pick(6, 16), r.Pick(25, 40)
+		rounds, iters = r.Pick(12, 24), r.Pick(40, 60)
 	}
 	run.Parallel(rounds, 4, func(i int) {
 		id := fmt.Sprintf("conc/%d", i)
